@@ -20,6 +20,15 @@ def levelOf (j : Json) : R (Nat × Level) := do
 def jLevel (l : Level) : Json :=
   Json.mkObj [("bins", jBins l.1), ("pixels", jPixels l.2), ("total", jInt (total l.2))]
 
+/-- `/resolutions/<digits>` is a resolution key, any other group path is kept as it is -/
+def keyOfPath (p : String) : GKey :=
+  let pre := "/resolutions/"
+  if p.startsWith pre then
+    match (p.drop pre.length).toNat? with
+    | some r => .resolution r
+    | none => .other p
+  else .other p
+
 /-- hypotheses of the theorems on a base level -/
 def levelOkB (l : Level) : Bool :=
   validSegmentationB l.1 && wfB (groups l.1) && strictSortedB l.2 && inRangeB l.1.length l.2
@@ -70,8 +79,16 @@ def handle : Handler := fun op a =>
             | none => none
           | none => none
         let bidx : List (Option Nat) := (List.range ms.resn.length).map fun i => (chainOf bs ms (i + 1) i).map (·.1)
+        -- the FILE at the output path after this run, given the collections an earlier run left there
+        -- (optional "prior": their group paths; theorems zoomify_file / zoomify_file_prior)
+        let prior : MFile := match (fld a "prior" >>= listOf strOf) with
+          | .ok ps => ps.map fun p => (keyOfPath p, (([], []) : Level))
+          | .error _ => []
+        let file := zoomifyFile prior cs ms baseOf
         return Json.mkObj [
           ("ok", Json.mkObj [
+            ("file_listing", jList Json.str (file.map fun e => keyPath e.1)),
+            ("file_is_this_run", Json.bool (decide (file = zoomEntries cs ms baseOf))),
             ("multseq", jMultSeq ms),
             ("resn", jNats ms.resn),
             ("levels", jList (jOpt jLevel) direct),
